@@ -120,12 +120,7 @@ func fixedWidthCovered(c *core.Ctx) func(k *types.Const) bool {
 		if fw == nil {
 			return false
 		}
-		for _, sw := range core.Switches(c.DeclPkg(fw).TypesInfo, c.Decl(fw).Body) {
-			if sw.HasCaseVal(k.Val()) {
-				return true
-			}
-		}
-		return false
+		return fixedWidthOf(c, k) > 0
 	}
 }
 
